@@ -64,14 +64,11 @@ def d1_kernel(ck):
             ck.check(ok, 'C18.D1.cell', mod, s, 'matrix_bincount2d', '%s with i=%s j=%s' % (u(s), srcs[0] if srcs else '?', srcs[1] if len(srcs) > 1 else '?'),
                      'cell [x, y, state of x in a, state of y in b] incremented by one per frame',
                      'the incremented cell must be jc[a_row, b_row, a[t, a_row], b[t, b_row]] += 1')
-    # bincount2d: unused by the package, reported as observation only
+    # the 1-D sibling kernel (not called by the package, but public and unchecked)
     fn2 = mod.functions.get('bincount2d')
-    if fn2 is not None:
-        has_guard = any(isinstance(s, ast.Assert) and '.max()' in u(s.test) for s in walk_local(fn2))
-        if not has_guard:
-            ck.observe('C18.D1.bounds', mod, fn2,
-                       'bincount2d (not called anywhere in the package, outside the observed API) '
-                       'indexes H[a[t], b[t]] with boundscheck(False) and no range guard')
+    if fn2 is not None and fn2.cy_directives.get('boundscheck') is False:
+        nb2, _ = check_bounds(ck, 'C18.D1.bounds', mod, fn2, fused)
+        check_zero_before_accumulate(ck, 'C18.D2.zero-first', mod, fn2, fused)
 
 
 def d3_axes(ck):
